@@ -90,13 +90,14 @@ _POINTS = [{"dm": Fraction(1), "cf": Fraction(7), "rf": Fraction(3)}, {"dm": Fra
            {"dm": Fraction(3), "cf": Fraction(101), "rf": Fraction(37, 3)}]
 
 
-def law_checks(S, label, got, dm, f_hz, ref_hz):
+def law_checks(S, label, got, dm, f_hz, ref_hz, scale=None):
     """|got - K*DM*f*(1/f_ref-1/f)^2| <= 1e-11 * K*|DM|*f*(1/f_ref+1/f)^2 for all inputs.  Both sides are linear in DM:
     that is checked exactly first, then DM := 1 leaves two-variable queries (one per side), which nlsat decides quickly."""
     one = z3.RealVal(1)
     got1 = z3.substitute(got, (dm, one))
-    want1 = phase_cycles(one, f_hz, ref_hz)
-    tol1 = phase_tol(S, one, f_hz, ref_hz, positive=S.symbolic)
+    unit_dm = one if scale is None else scale          # DM variable := 1 in its own unit = `scale` pc/cm^3
+    want1 = phase_cycles(unit_dm, f_hz, ref_hz)
+    tol1 = phase_tol(S, unit_dm, f_hz, ref_hz, positive=S.symbolic)
     if S.symbolic:
         # f > 0 on every path (assumed: band above 0 Hz), so |f| = f; divisions are cleared exactly before the solver sees the query
         return [(label + ":linear-in-DM", got != dm * got1), (label + ":hi", positive_ratfun(got1 - want1 - tol1)),
@@ -120,10 +121,12 @@ class TransferFunction(Unit):
     functions = ("pulsarbat.transforms.dedispersion:_transfer_function", "pulsarbat.transforms.dedispersion:DispersionMeasure.chirp_function")
     witnesses = 1
 
-    def __init__(self, N, ucf, uref, udt):
-        self.N, self.ucf, self.uref, self.udt = N, ucf, uref, udt
-        self.name = f"tf-N{N}-{ucf}-{uref}-{udt}"
-        self.bounds = {"N": N, "units(center,ref,dt)": [ucf, uref, udt]}
+    DMU = {"pc/cm3": (u.pc / u.cm**3, Fraction(1)), "pc/m3": (u.pc / u.m**3, Fraction(1, 10**6)), "kpc/cm3": (u.kpc / u.cm**3, Fraction(1000))}
+
+    def __init__(self, N, ucf, uref, udt, dmu="pc/cm3"):
+        self.N, self.ucf, self.uref, self.udt, self.dmu = N, ucf, uref, udt, dmu
+        self.name = f"tf-N{N}-{ucf}-{uref}-{udt}{'' if dmu == 'pc/cm3' else '-dm-' + dmu.replace('/', '_')}"
+        self.bounds = {"N": N, "units(center,ref,dt)": [ucf, uref, udt], "DM_unit": dmu}
 
     def patches(self):
         self.rec = RecExp()
@@ -143,7 +146,8 @@ class TransferFunction(Unit):
         dt_s = RV(dt * TU[self.udt][1])
         # every bin frequency positive (band above 0 Hz)
         S.assume(cf_hz - 1 / (2 * dt_s) > 1)
-        DM = pb.DM(np.array(dm, dtype=object), dtype=object) if S.symbolic else pb.DM(dm)
+        dmun = self.DMU[self.dmu][0]
+        DM = pb.DM(np.array(dm, dtype=object), dmun, dtype=object) if S.symbolic else pb.DM(dm, dmun)
         return {"DM": DM, "dm": dm, "cf": S.quantity(cf, FU[self.ucf][0]), "rf": S.quantity(rf, FU[self.uref][0]),
                 "dt": float(dt) * TU[self.udt][0], "cf_hz": cf_hz, "rf_hz": rf_hz, "dt_s": dt_s}
 
@@ -154,7 +158,8 @@ class TransferFunction(Unit):
         if isinstance(out, Raised):
             return [("no-exception", z3.BoolVal(True))]
         N = self.N
-        dm = rterm(a["dm"])
+        dmv, dmscale = rterm(a["dm"]), RV(self.DMU[self.dmu][1])
+        dm = dmv * dmscale                                          # in pc/cm^3
         checks = [("shape", z3.BoolVal(tuple(out.shape) != (N,))), ("dtype", z3.BoolVal(np.dtype(out.dtype) != np.complex64))]
         if tuple(out.shape) != (N,):
             return checks
@@ -164,12 +169,13 @@ class TransferFunction(Unit):
             fk.append(a["cf_hz"] + RV(kk) / (N * a["dt_s"]))
         if S.symbolic:
             thetas, outs = self.rec.calls[-1]
+            self._thetas = list(thetas)
             o = plain(out)
             bad = []
             for k in range(N):
                 want = phase_cycles(dm, fk[k], a["rf_hz"])
                 got = -cycles_of(thetas[k])              # exp(-i*theta): phase = theta/2pi cycles, sign per the property
-                checks += law_checks(S, f"phase-law[{k}]", got, dm, fk[k], a["rf_hz"])
+                checks += law_checks(S, f"phase-law[{k}]", got, dmv, fk[k], a["rf_hz"], scale=dmscale)
                 c = SComplex.of(o[k])
                 bad.append(z3.Or(c.re != outs[k].re, c.im != outs[k].im))        # returned value is exp(-i theta_k) itself
             checks.append(("phase-law-value", z3.Or(bad)))
@@ -183,6 +189,22 @@ class TransferFunction(Unit):
                 bad.append(cneq(S, cterm(out[k]), want, Fraction(2, 10**4) + Fraction(63, 10**15) * aph))
             checks.append(("phase-law", z3.Or(bad)))
         return checks
+
+    def compare(self, S, args, out, CS, cargs, cout):
+        """the recorded exponents of the symbolic run, evaluated at the concrete inputs, must give the chirp the real code returns"""
+        if isinstance(out, Raised) or isinstance(cout, Raised):
+            return [] if (isinstance(out, Raised) and isinstance(cout, Raised)) else [f"outcomes differ: {out!r} vs {cout!r}"]
+        import cmath
+        thetas = self._thetas
+        pr = []
+        for k, th in enumerate(thetas):
+            cyc = Fraction(K.evalz(cycles_of(th), CS.env, CS.ufs))
+            frac = float(cyc - int(cyc))                       # reduce exactly before going to floats
+            want = cmath.exp(2j * math.pi * frac)              # exp(i*theta), theta = 2 pi cycles ; the code returns exp(-1j*phase) = exp(i*theta_rec)
+            got = complex(np.asarray(cout)[k])
+            if abs(got - want) > 2e-4 + 1e-14 * abs(float(cyc)):
+                pr.append(f"bin {k}: recorded exponent gives {want!r}, real chirp {got!r}")
+        return pr
 
     def signature(self, label, values, detail):
         return f"chirp:{label.split('[')[0]}"
@@ -478,6 +500,7 @@ def units(tier):
     for N in ((1, 2, 3, 4) if tier == "quick" else (1, 2, 3, 4, 5, 8)):
         for _ in range(1 if tier == "quick" else 2):
             us.append(TransferFunction(N, *next(ucyc)))
+    us += [TransferFunction(2, "MHz", "GHz", "us", dmu="pc/m3"), TransferFunction(3, "GHz", "MHz", "s", dmu="kpc/cm3")]
     acyc = itertools.cycle(["center", "bottom", "top"])
     for N in ((2, 4) if tier == "quick" else (2, 3, 4, 8)):
         us.append(Dedisperse(N, 1, align=next(acyc)))
